@@ -17,6 +17,11 @@ CHECKS = {
    text="~1.6k configurations (fingerprint / CA clients x role sets; real, hidden, alias, dangling-alias, alias-of-alias, token-less keys; trusted-proxy lists) x ~2.7k requests (endpoint x key x peer address x TLS chain x X-Forwarded-For x Ssl-Client-Cert) = 4.3M real handler calls in the quick tier, each judged by a reference function written from the statement: status class, zero token touches on refusal, exact listings, recorded client name and address; plus malformed configurations and the bearer/policy authenticator with 9 scripted policy replies.",
    note="Trusted: the reference function in cmd/c04, scripted token type 'verif' (relic's public opener registry), httptest. Map-order ambiguity (certificate matching several CA clients) is accepted either way. OPA itself is scripted through http.DefaultTransport.",
    ref="4/C04"),
+ "C13": dict(level="fault_enumeration", engine="E6 strace system-call fault injector on a real process",
+   technique="exhaustive crash-point and error-point enumeration: SIGKILL on entry to, and an injected errno at, every file-system system call of a real `relic sign` process built from the tree",
+   text="For 19 output scenarios (whole-file write, patch-by-rewrite to a new path and to a hard-linked same path, MSI copy-then-edit, PGP merges, every package type) x destination {absent, present}: pass 0 records the main thread's file-system calls with strace; for every such call k one run is killed on entry to call k and one run has call k fail (ENOSPC/EIO/EACCES); each run's strace log confirms which boundary was hit (retried until the addressed boundary is confirmed). After every run: destination is the complete old or complete new content (never missing/torn), input untouched, no *.tmp* after a handled error, exit status consistent.",
+   note="Trusted: strace 6.1 injection semantics (kill on syscall entry; verified per run from the log), relic verify + an independent PE checksum as the 'complete new content' test. Calls issued on helper threads (PGP merge writer goroutine) are addressed only as (call, occurrence) on whichever thread reaches it first and are reported separately; exhaustive is false when any planned boundary stayed unconfirmed. Process kill only - power loss is outside the statement.",
+   ref="4/C13"),
 }
 NOT_YET = {}
 ALL = ["C%02d" % i for i in range(1, 21)]
